@@ -37,6 +37,22 @@ pub proof fn lemma_latest_weight_frame(s0: Storage, k: (Seq<char>, Seq<char>, u6
         assert(e0 == e1);
     }
 }
+/// the latest weight only depends on the weight history
+pub proof fn lemma_latest_weight_only_weights(s0: Storage, s1: Storage, a: Seq<char>, lp: Seq<char>)
+    requires s0.weights == s1.weights,
+    ensures latest_weight(s0, a, lp) == latest_weight(s1, a, lp),
+{
+    assert forall|e: u64| has_weight(s1, a, lp, e) == has_weight(s0, a, lp, e) by { }
+    if exists|e: u64| has_weight(s0, a, lp, e) {
+        let e0 = choose|e: u64| has_weight(s0, a, lp, e) && forall|e2: u64| has_weight(s0, a, lp, e2) ==> e2 <= e;
+        let e1 = choose|e: u64| has_weight(s1, a, lp, e) && forall|e2: u64| has_weight(s1, a, lp, e2) ==> e2 <= e;
+        lemma_latest_exists(s0, a, lp);
+        lemma_latest_exists(s1, a, lp);
+        assert(has_weight(s0, a, lp, e1));
+        assert(has_weight(s1, a, lp, e0));
+        assert(e0 == e1);
+    }
+}
 /// the latest weight is the snapshot at the greatest epoch
 pub proof fn lemma_latest_is(s: Storage, a: Seq<char>, lp: Seq<char>, l: u64)
     requires has_weight(s, a, lp, l), forall|k: u64| has_weight(s, a, lp, k) ==> k <= l,
